@@ -8,6 +8,8 @@ Request lines (harness: harness/src/ops_classgroup.rs, model: lean/Ymq/Drv/Class
   cg_full D threads              real classgroup() with an output directory: h, invariants, generator
                                  coordinates, every line of relations.sieve, the classnumber file    (O + model follow-ups)
   cg_estimate D                  classgroup::estimate, as floor(1000 hmin) ceil(1000 hmax)          (O, reported only)
+  cg_estimate_bits D             classgroup::estimate as two f64 bit patterns: |D| at every row boundary of the
+                                 parameter tables (b-1, b, b+1 bits, to 512 bits): no panic, finite bracket  (O)
   cg_b_plus p r even             Prime::b_plus                                                      (K + O)
   cg_fb_bplus D size             p:r:b_plus for the factor base the class group code builds         (O)
   cg_crel_history maxlarge rels  CRelationSet::add over a history: emitted relations + counters     (K + O)
@@ -49,7 +51,7 @@ from vlib.pipeline import Case
 
 PID = "C18"
 GEN = []
-LEAN = ["Ymq.Props.C18", "Ymq.Props.C18C19", "Ymq.Props.C18Forms", "Ymq.Props.C18Legendre"]
+LEAN = ["Ymq.Props.C18", "Ymq.Props.C18C19", "Ymq.Props.C18Forms", "Ymq.Props.C18Legendre", "Ymq.Props.C18Group"]
 AUDIT = "Ymq.Audit.C18"
 PROFILES = ["release", "chk"]
 TIMEOUT = 60.0
@@ -1108,6 +1110,92 @@ def legendre_klass(case, ans):
     return f"cg_legendre/{kind}/{sz}/{ans if ans in ('panic', '0', '1', '-1', '?', 'abort', 'hang') else 'other'}"
 
 
+# ---------------------------------------------------------------- parameter-table boundaries (classgroup::estimate)
+
+def param_table_boundaries(fb_only=False):
+    """every bit size at which one of the class group parameter tables changes row, READ FROM THE SOURCE (YMQ_REPO or /repo):
+    params::clsgrp_fb_size (the `bitsize < N` cut-off and the first column of CLASSGROUP_FBSIZES) and the match arms of
+    classgroup::{a_params, interval_size, large_prime_factor, double_large_factor}. A pattern that no longer matches raises."""
+    import os, re
+    repo = os.environ.get("YMQ_REPO", "/repo")
+    par = open(os.path.join(repo, "src/params.rs")).read()
+    cls = open(os.path.join(repo, "src/classgroup.rs")).read()
+    out = set()
+    m = re.search(r"pub fn clsgrp_fb_size\(.*?\n}\n", par, re.S)
+    cut = re.search(r"bitsize\s*(<=?|>=?)\s*(\d+)", m.group(0)) if m else None
+    if not cut:
+        raise RuntimeError("param_table_boundaries: clsgrp_fb_size cut-off not found")
+    out.add(int(cut.group(2)))
+    m = re.search(r"const CLASSGROUP_FBSIZES[^=]*=\s*&\[(.*?)\n\];", par, re.S)
+    rows = re.findall(r"\(\s*(\d+)\s*,\s*\d+\s*,\s*\d+\s*\)", m.group(1)) if m else []
+    if len(rows) < 5:
+        raise RuntimeError("param_table_boundaries: CLASSGROUP_FBSIZES not found")
+    out.update(int(r) for r in rows)
+    if fb_only:
+        return sorted(out)
+    for fn in ("a_params", "interval_size", "large_prime_factor", "double_large_factor"):
+        m = re.search(r"fn %s\(.*?\n}\n" % fn, cls, re.S)
+        arms = re.findall(r"(\d+)\s*\.\.(?:=\s*(\d+))?\s*=>", m.group(0)) if m else []
+        if len(arms) < 3:
+            raise RuntimeError(f"param_table_boundaries: match arms of {fn} not found")
+        for lo, hi in arms:
+            if int(lo) > 0:
+                out.add(int(lo))          # first size of the row: lo-1 | lo is the boundary
+    return sorted(out)
+
+
+MAX_SUPPORTED_BITS = 512                  # ymcls refuses larger |D| (MAXBITS in src/bin/ymcls.rs)
+
+
+def estimate_boundary_cases(rng, tier):
+    """DETERMINISTIC sizes: |D| of exactly b-1, b, b+1 bits for every row boundary b of the parameter tables (379/380/381
+    included: the cut-off of clsgrp_fb_size, where the generic fallback of select_fb_size would return 252000 and
+    fbsize * fbsize overflow u32 in estimate) and the largest supported size, through the real classgroup::estimate (no sieving),
+    both profiles. estimate walks the primes to min(10^8, fb^2): about 1 s per call from 320 bits on, so the quick tier keeps
+    b-1, b, b+1 for every boundary below 260 bits and for the cut-off, and b alone for the larger rows of CLASSGROUP_FBSIZES
+    (the only table estimate reads)."""
+    quick = tier == "quick"
+    bs = param_table_boundaries()
+    fbrows = param_table_boundaries(fb_only=True)
+    cutoff = 380 if 380 in bs else max(bs)
+    sizes = set()
+    for b in bs:
+        if not quick or b < 260 or b == cutoff:
+            sizes.update((b - 1, b, b + 1))
+        elif b in fbrows:
+            sizes.add(b)
+    sizes.update((MAX_SUPPORTED_BITS,) if quick else (MAX_SUPPORTED_BITS - 1, MAX_SUPPORTED_BITS))
+    for i, s in enumerate(sorted(x for x in sizes if 5 <= x <= MAX_SUPPORTED_BITS)):
+        n = rng.getrandbits(s) | (1 << (s - 1))
+        if i % 2 == 0:
+            n = n - (n % 8) + (3, 7)[(i // 2) % 2]                    # D = -n = 5 resp. 1 mod 8
+        else:
+            n = n - (n % 16) + (4, 8)[(i // 2) % 2]                   # D = -n = 12 resp. 8 mod 16
+        if n.bit_length() != s:
+            n = (1 << (s - 1)) + (3 if i % 2 == 0 else 4)
+        yield Case(f"cg_estimate_bits {-n}", k=False, o=True, timeout=120, tag=f"param-boundary/{s}b")
+
+
+def estimate_bits_oracle(case, ans):
+    """no panic; both bounds finite, 0 < lo <= hi; and a gross window: the Euler product over the primes below 2*10^5 (own
+    floats) lies within a factor 2 of the bracket (no theorem says the bracket contains h; a factor 2 is far outside the few
+    per cent the truncations differ by)."""
+    import struct
+    D = int(case.args[0])
+    if ans in ("panic", "abort", "hang", "?"):
+        return f"classgroup::estimate({D}) [{(-D).bit_length()} bits]: {ans}"
+    try:
+        lo, hi = (struct.unpack("<d", struct.pack("<Q", int(x)))[0] for x in ans.split(" "))
+    except Exception:
+        return f"classgroup::estimate({D}): unreadable answer {ans!r}"
+    if not (math.isfinite(lo) and math.isfinite(hi) and 0 < lo <= hi):
+        return f"classgroup::estimate({D}) [{(-D).bit_length()} bits] = ({lo!r}, {hi!r}): not a finite bracket 0 < lo <= hi"
+    est = analytic_estimate(D)
+    if not (lo / 2 <= est <= 2 * hi):
+        return f"classgroup::estimate({D}) = ({lo:.6g}, {hi:.6g}) is not within a factor 2 of the Euler product {est:.6g}"
+    return None
+
+
 def cases(tier, rng, extended=False):
     quick = tier == "quick"
     scale = 1 if quick else 6
@@ -1117,6 +1205,7 @@ def cases(tier, rng, extended=False):
         X = max(X, 400000)
     table_upto(X)
     yield from boundary_cases(_fork(rng, "C18-boundary"), tier)
+    yield from estimate_boundary_cases(_fork(rng, "C18-estimate-boundary"), tier)
     if not extended:
         yield from ymcls_cases(tier, rng)
     yield from legendre_cases(_fork(rng, "C18-legendre"), tier)
@@ -1529,6 +1618,8 @@ def oracle(case, ans):
     op, a = case.op, case.args
     if op == "cg_legendre":
         return legendre_oracle(case, ans)
+    if op == "cg_estimate_bits":
+        return estimate_bits_oracle(case, ans)
     if op == "cg_b_plus":
         p, r, even = int(a[0]), int(a[1]), a[2] == "true"
         if not ans.isdigit():
@@ -2031,6 +2122,8 @@ def _klass(case, ans):
             base += "/SPARSE-no-structure"
     if op == "cg_poly" and len(a) > 4 and a[4] == "1":
         base += "/dbl"
+    if op == "cg_estimate_bits":
+        return f"{op}/{dclass(D)}/{(-D).bit_length()}b{bad}"
     if op == "cg_estimate" and not bad:
         ref = reference_h(D)
         lo, hi = (int(x) for x in ans.split(" "))
@@ -2066,7 +2159,9 @@ THEOREMS = ["Ymq.C18." + t for t in (
     "relation_genuine primitive_of_fundamental relation_genuine_fundamental theRoot_is_b_plus reduce_pequiv "
     # Props/C18Legendre: classgroup::legendre
     "legendre_eq_legendreSym_partial legendre_no_panic legendre_two legendre_residue_form legendre_panics_of_ge_two_pow_30 "
-    "legendre_large_prime_panics legendre_panics_small_moduli legendre_composite_debug_assert").split()] + [
+    "legendre_large_prime_panics legendre_panics_small_moduli legendre_composite_debug_assert "
+    # Props/C18Group: the driver's form arithmetic (Form.compose = Cohen 5.4.7 + xgcd + reduce) is Gauss composition
+    "xgcd_correct compose_raw_identity compose_is_composition compose_dirichlet compose_concordant").split()] + [
     "Ymq.C18C19.reported_invariants_multiply"]
 HYPOTHESES = [
     "classNumber_is_reduced_count (definition, not proved): the class number h(D) of the imaginary quadratic order of discriminant D "
